@@ -36,7 +36,9 @@ Ups == { u \in [st : {200, 201, 204, 304, 404, 500, 503, 299}, fr : {"cl", "chun
             /\ (u.ver = 10 => u.fr # "chunked" /\ ~u.hop)        \* an HTTP/1.0 origin: Content-Length or close, then it hangs up
             /\ (u.sse => u.st = 200 /\ u.fr \in {"chunked", "eof"} /\ ~u.gz /\ ~u.tr)
             /\ (u.gz => u.st \in {200, 404} /\ u.sz > 1)
-            /\ (u.st \in {204, 304} => u.sz = 1 /\ ~u.gz /\ ~u.sse /\ u.fr = "cl" /\ ~u.tr)
+            \* a 304 may announce the framing the 200 would have had (RFC 7230 3.3.1: Transfer-Encoding on a 304 carries no
+            \* body); a 204 may not
+            /\ (u.st \in {204, 304} => u.sz = 1 /\ ~u.gz /\ ~u.sse /\ ~u.tr /\ u.fr \in (IF u.st = 304 THEN {"cl", "chunked"} ELSE {"cl"}))
             /\ (u.st \in {201, 500, 503, 299} => ~u.cookies /\ ~u.hop) }
 
 ReqClose(r) == r.copt = "close" \/ (r.ver = 10 /\ r.copt # "ka")       \* http.ReadRequest
